@@ -621,11 +621,18 @@ fn check_alternates(rng: &mut Rng, paths: &[Vec<u8>], rep: &mut Report) {
 /// suffix tables, basename and extension maps) have to keep apart.
 pub fn family_globs(rng: &mut Rng) -> Vec<String> {
     let n = rng.range(2, 5);
-    let word: Vec<u8> = (0..n).map(|_| rng.pick(b"abab.-A/")).collect();
+    // one word in three has multi-byte characters: literal lengths in bytes
+    // and in characters then differ
+    let alphabet: &[char] = if rng.chance(1, 3) {
+        &['a', 'b', 'é', '.', '-', 'A', '/', 'é', '語']
+    } else {
+        &['a', 'b', 'a', 'b', '.', '-', 'A', '/']
+    };
+    let word: Vec<char> = (0..n).map(|_| rng.pick(alphabet)).collect();
     let mut subs: Vec<String> = vec![];
     for i in 0..word.len() {
         for j in i + 1..=word.len() {
-            let s = String::from_utf8_lossy(&word[i..j]).into_owned();
+            let s: String = word[i..j].iter().collect();
             if !subs.contains(&s) {
                 subs.push(s);
             }
@@ -719,6 +726,27 @@ pub fn run(ctx: &Ctx) -> Report {
         };
         for _ in 0..(if cfg!(miri) { 2 } else { 40 }) {
             ps.push(random_path(rng));
+        }
+        if family {
+            // paths built around the family's own literals
+            for g in &source {
+                let lit: String = g.chars().filter(|c| *c != '*').collect();
+                let lit = lit.trim_matches('/').to_string();
+                if lit.is_empty() {
+                    continue;
+                }
+                for p in [
+                    lit.clone(),
+                    format!("x/{}", lit),
+                    format!("x/y/{}", lit),
+                    format!("{}/x", lit),
+                    format!("a{}", lit),
+                    format!("{}b", lit),
+                    format!("x/{}/y.{}", lit, lit),
+                ] {
+                    ps.push(p.into_bytes());
+                }
+            }
         }
         check_block(&comp, &ps, true, rep);
         for _ in 0..(if cfg!(miri) { 1 } else { 4 }) {
